@@ -70,6 +70,14 @@ func checkC20(c c20Case) error {
 			if isFault(m) && len(out) != 0 {
 				return finding("bytes-with-error", "%s: returned %x together with %v", desc, out, err)
 			}
+			if noSigMode(m) {
+				// (F21) no signature and no error from the signer: Countersign0 reports that instead of returning nothing
+				if err == nil || len(out) != 0 {
+					return finding("empty-signature-without-error", "%s: the signer returned no signature and no error; Countersign0 returned %x, err=%v", desc, out, err)
+				}
+				stats.Class("entry/" + c.Entry)
+				return nil
+			}
 			if isFault(m) != (err != nil) || (err != nil && !errors.Is(err, bridge.ErrInjected)) {
 				return finding("signer-error-lost", "%s: returned err=%v", desc, err)
 			}
@@ -136,6 +144,10 @@ func checkC20(c c20Case) error {
 				return finding("signer-error-lost", "%s: the signer's error is not returned (err=%v)", desc, err)
 			}
 		}
+		if noSigMode(m) && err == nil {
+			// F21: a signer that hands back no signature and no error has not signed: the signing call says so
+			return finding("empty-signature-without-error", "%s: the signer returned no signature and no error, and the signing call reports success", desc)
+		}
 		if helper {
 			if (isFault(m) || noSigMode(m)) && (len(out) != 0 || err == nil) {
 				return finding("helper-returned-message", "%s: helper returned %d bytes, err=%v", desc, len(out), err)
@@ -175,24 +187,26 @@ func checkC20(c c20Case) error {
 		ss = append(ss, sp)
 	}
 	err := msg.Sign(rnd, nil, ss...)
+	// the call ends at the first signer that does not sign: with that signer's error, or - when the signer handed
+	// back nothing and no error (F21) - with an error of the library's own
 	first := -1
 	for i, m := range c.Modes {
-		if isFault(m) {
+		if isFault(m) || noSigMode(m) {
 			first = i
 			break
 		}
 	}
-	anyEmpty := false
-	for i, m := range c.Modes {
-		if noSigMode(m) && (first < 0 || i < first) {
-			anyEmpty = true
+	anyEmpty := first >= 0 && noSigMode(c.Modes[first])
+	switch {
+	case first >= 0 && anyEmpty:
+		if err == nil {
+			return finding("empty-signature-without-error", "%s: signer %d returned no signature and no error, and SignMessage.Sign reports success with that slot unfilled", desc, first)
 		}
-	}
-	if first >= 0 {
+	case first >= 0:
 		if err == nil || !errors.Is(err, bridge.ErrInjected) {
 			return finding("signer-error-lost", "%s: error of signer %d not returned (err=%v)", desc, first, err)
 		}
-	} else if err != nil && !anyEmpty {
+	case err != nil:
 		return finding("sign-failed", "%s: %v", desc, err)
 	}
 	for i := 0; i < n; i++ {
@@ -202,14 +216,12 @@ func checkC20(c c20Case) error {
 			return finding("signature-stored-on-failure", "%s: the failing slot %d holds %x", desc, i, msg.Signatures[i].Signature)
 		case first >= 0 && i > first && (filled || spies[i].NCalls() != 0):
 			return finding("continued-after-failure", "%s: slot %d was signed (calls=%d) after signer %d failed", desc, i, spies[i].NCalls(), first)
-		case (first < 0 || i < first) && c.Modes[i] == bridge.SignOK && !filled && err == nil:
-			return finding("slot-left-empty", "%s: Sign returned nil but slot %d is empty", desc, i)
-		case noSigMode(c.Modes[i]) && filled:
-			return finding("signature-stored-on-failure", "%s: slot %d holds bytes although its signer returned none", desc, i)
+		case (first < 0 || i < first) && !filled:
+			return finding("slot-left-empty", "%s: slot %d is empty although its signer signed", desc, i)
 		}
 	}
 	b, eerr := msg.MarshalCBOR()
-	complete := first < 0 && !anyEmpty
+	complete := first < 0
 	if !complete && (eerr == nil || len(b) != 0) {
 		return finding("encodes-half-signed", "%s: MarshalCBOR succeeds on a message that is not completely signed: %x", desc, b)
 	}
@@ -858,12 +870,18 @@ func checkC20Rand(c c20RandCase) error {
 		if eerr == nil || len(out) != 0 {
 			return finding("encodes-half-signed", "a %v whose signers returned %v is encodable (sign err=%v): %x", c.Spec.Kind, modeNames(c.Modes), err, out)
 		}
-		for i, md := range c.Modes {
+		for _, md := range c.Modes {
+			if noSigMode(md) {
+				// the first signer that does not sign ends the call: here with the library's own error (F21)
+				if err == nil {
+					return finding("empty-signature-without-error", "signers %v: a signer returned no signature and no error, Sign reports success", modeNames(c.Modes))
+				}
+				break
+			}
 			if isFault(md) {
 				if !errors.Is(err, bridge.ErrInjected) {
 					return finding("signer-error-lost", "signers %v: Sign returned %v", modeNames(c.Modes), err)
 				}
-				_ = i
 				break
 			}
 		}
